@@ -20,6 +20,7 @@ import (
 	"verif/harness/internal/c15"
 	"verif/harness/internal/c16"
 	"verif/harness/internal/c17"
+	"verif/harness/internal/c18"
 	"verif/harness/internal/c19"
 	"verif/harness/internal/c20"
 )
@@ -46,6 +47,8 @@ func main() {
 		os.Exit(c15.Main(os.Args[2:]))
 	case "c20":
 		os.Exit(c20.Main(os.Args[2:]))
+	case "c18":
+		os.Exit(c18.Main(os.Args[2:]))
 	case "c19":
 		os.Exit(c19.Main(os.Args[2:]))
 	case "c10":
